@@ -1,4 +1,6 @@
 import Blf.Gen.All
+import Blf.Codec.Determinacy
+import Blf.Spec.ObjectTypes
 /-!
 # Line-protocol driver for the correspondence harness (tie D)
 
@@ -92,9 +94,20 @@ def handle (cfg : Cfg) (line : String) : String :=
         r ++ " ehalt=" ++ haltStr e.halt ++ " out=" ++ toHex e.out ++ " obj " ++ dumpObj c e.obj
       else r ++ " obj " ++ dumpObj c st.obj
     | _, _ => "bad-request"
+  | ["tables"] =>
+    "tables " ++ " ".intercalate (Gen.allCodecs.map fun c =>
+      let b (x : Bool) := if x then "1" else "0"
+      c.name ++ "=" ++ b c.inputsInit ++ b c.arraysInit ++ b c.allInit ++
+        b (Spec.lookupCode Gen.factoryTable c.ctorType == some c.name))
   | ["regcheck"] =>
     "regcheck " ++ " ".intercalate (Gen.regularLayouts.map fun p =>
       p.1.name ++ "=" ++ (if regularCheck p.1 p.2 then "1" else "0"))
+  | ["factory", code] =>
+    match code.toNat? with
+    | some k => "factory " ++ toString k ++ " " ++ (match Spec.lookupCode Gen.factoryTable k with
+        | some n => n
+        | none => "none")
+    | none => "bad-request"
   | ["dflt", cn] =>
     match findCodec cn with
     | some c => "dflt type=" ++ toString c.ctorType ++ " obj " ++ dumpObj c c.fresh
